@@ -955,3 +955,140 @@ Print Assumptions C17_example_tar_names.
 Print Assumptions C17_example_convert.
 Print Assumptions C17_example_key_for_unencrypted.
 Print Assumptions C17_example_repair_refuses_key.
+
+
+(* ======================================================================================================================
+   work package info: `mlar info` (mlar/src/main.rs info / ArchiveInfoReader, compress.rs SizesInfo::get_compressed_size,
+   ecc.rs count_keys) — model theories/CliInfo.v, proofs CliInfoStack.v / CliInfoProofs.v, Tie B family `info` of job c17
+   (RunC17Info.v), Tie A Src.INFO_* (CliInfoStack.info_facts_src).
+   files_total = sum of the input sizes; cblocks_of = the compressed blocks the compression writer left below it (their
+   lengths ARE the size table, CompWriterProofs.Winv); info_text = the lines in the order of the println! calls.
+   ovf = overflow checks compiled in (dev profile) or not (release profile of /repo). *)
+From MLA Require Import CliInfo CliInfoStack CliInfoProofs RunC17Info.
+
+(* info / info -v on an archive made by create, any layers, any candidate keys holding a recipient key (none for an
+   archive without encryption): exit 0; "Format version: 1"; Encryption / Compression = the layer choice; with -v the
+   number of recipient keys given and the rate of (sum of the input sizes) over (length of the compressed blocks = sum of
+   the size table), rendered as core::fmt renders the f64 quotient with two decimals (CliInfo.rate_text) *)
+Theorem C17_info_reports_layers :
+  forall (CHUNK TAG CIPHERBUF BLOCK LIMIT FNMAX TS TC TA TE : N) (H : bytes -> bytes) (order : footer -> footer) (pubk : bytes -> bytes)
+         (dh : bytes -> bytes -> bytes) (kdf : bytes -> bytes) (wenc wdec wtag : bytes -> bytes -> bytes) (ksf : bytes -> bytes -> N -> N -> N)
+         (tagf : bytes -> bytes -> N -> bytes -> bytes) (dec : bytes -> bytes) (ovf : bool),
+       0 < CHUNK ->
+       0 < TAG ->
+       0 < CIPHERBUF ->
+       0 < BLOCK ->
+       BLOCK < 2 ^ 32 ->
+       tags_distinct TS TC TA TE ->
+       (forall x : bytes, len (H x) = 32) ->
+       (forall f : footer, Permutation (order f) f) ->
+       (forall (k : bytes) (m : list N), len m = 32 -> wdec k (wenc k m) = m) ->
+       (forall e : bytes, len (pubk e) = 32) ->
+       (forall (k : bytes) (m : list N), len m = 32 -> len (wenc k m) = 32) ->
+       (forall k c : bytes, len (wtag k c) = 16) ->
+       forall (cfg : wconfig) (ct cm : list N) (files : list (bytes * bytes)) (sf : wstate) (rs : list (res N)) (privs : list bytes) (s : bytes),
+       made_by_create CHUNK TAG BLOCK LIMIT FNMAX TS TC TA TE H order pubk dh kdf wenc wtag ksf tagf dec cfg files sf rs privs s ->
+       files_total files < 2 ^ 64 ->
+       exists a : bytes,
+         cmd_create CHUNK CIPHERBUF BLOCK LIMIT FNMAX TS TC TA TE H order pubk dh kdf wenc wtag ksf tagf cfg ct cm files =
+         {| cr_ok := true; cr_out := OWritten a; cr_stdout := [] |} /\
+         (TagCollision pubk dh kdf wenc wtag (wc_eph cfg) (wc_key cfg) (wc_recipients cfg) privs \/
+          (forall verbose : bool,
+           cmd_info CHUNK TAG BLOCK LIMIT dh kdf wdec wtag ksf tagf dec ovf verbose a privs =
+           {|
+             i_status := 0;
+             i_stdout :=
+               info_text verbose (wc_encrypt cfg) (len (wc_recipients cfg)) (wc_compress cfg) (files_total files)
+                 (len (concat (cblocks_of BLOCK cfg (w_out sf))))
+           |})).
+Proof. exact info_reports_layers. Qed.
+
+(* when a key is needed: exactly for encrypted AND compressed archives (nothing at all is printed without one, exit 1);
+   without compression the keys are never looked at; without encryption any key is ACCEPTED (unlike open_mla_file) *)
+Theorem C17_info_needs_key_iff :
+  forall (CHUNK TAG CIPHERBUF BLOCK LIMIT FNMAX TS TC TA TE : N) (H : bytes -> bytes) (order : footer -> footer) (pubk : bytes -> bytes)
+         (dh : bytes -> bytes -> bytes) (kdf : bytes -> bytes) (wenc wdec wtag : bytes -> bytes -> bytes) (ksf : bytes -> bytes -> N -> N -> N)
+         (tagf : bytes -> bytes -> N -> bytes -> bytes) (dec : bytes -> bytes) (ovf : bool),
+       0 < CHUNK ->
+       0 < TAG ->
+       0 < CIPHERBUF ->
+       0 < BLOCK ->
+       BLOCK < 2 ^ 32 ->
+       (forall x : bytes, len (H x) = 32) ->
+       (forall f : footer, Permutation (order f) f) ->
+       (forall (k : bytes) (m : list N), len m = 32 -> wdec k (wenc k m) = m) ->
+       (forall e : bytes, len (pubk e) = 32) ->
+       (forall (k : bytes) (m : list N), len m = 32 -> len (wenc k m) = 32) ->
+       (forall k c : bytes, len (wtag k c) = 16) ->
+       forall (cfg : wconfig) (ct cm : list N) (files : list (bytes * bytes)) (sf : wstate) (rs : list (res N)) (privs : list bytes) (s : bytes),
+       made_by_create CHUNK TAG BLOCK LIMIT FNMAX TS TC TA TE H order pubk dh kdf wenc wtag ksf tagf dec cfg files sf rs privs s ->
+       exists a : bytes,
+         cmd_create CHUNK CIPHERBUF BLOCK LIMIT FNMAX TS TC TA TE H order pubk dh kdf wenc wtag ksf tagf cfg ct cm files =
+         {| cr_ok := true; cr_out := OWritten a; cr_stdout := [] |} /\
+         (wc_encrypt cfg = true ->
+          wc_compress cfg = true ->
+          forall verbose : bool, cmd_info CHUNK TAG BLOCK LIMIT dh kdf wdec wtag ksf tagf dec ovf verbose a [] = {| i_status := 1; i_stdout := [] |}) /\
+         (wc_compress cfg = false ->
+          forall (verbose : bool) (privs' : list bytes),
+          cmd_info CHUNK TAG BLOCK LIMIT dh kdf wdec wtag ksf tagf dec ovf verbose a privs' =
+          {| i_status := 0; i_stdout := info_text verbose (wc_encrypt cfg) (len (wc_recipients cfg)) false 0 0 |}) /\
+         (wc_encrypt cfg = false ->
+          forall (verbose : bool) (privs' : list bytes),
+          cmd_info CHUNK TAG BLOCK LIMIT dh kdf wdec wtag ksf tagf dec ovf verbose a privs' =
+          cmd_info CHUNK TAG BLOCK LIMIT dh kdf wdec wtag ksf tagf dec ovf verbose a []).
+Proof. exact info_needs_key_iff. Qed.
+
+(* crash sites of `info` reached by crafted archives (NOTES: info is not among the operations of C08).
+   9 bytes 4d4c41 01000000 01 00 (ENCRYPT bit, no encryption configuration): `info -v` panics at
+   header.config.encrypt.expect after two lines; a 69-byte compressed archive whose footer holds two sizes of 2^63:
+   `info -v` panics in the u64 sum under overflow checks and prints the rate of the wrapped sum without.
+   Both confirmed on the real binary by job c17 (the c17-info-crafted cases). *)
+Theorem C17_info_expect_encrypt_reachable :
+  wit 1 1 [] W_ENC_NONE = mkIres 101 (line_version ++ line_enc true) /\
+  wit 0 1 [] W_ENC_NONE = mkIres 0 (line_version ++ line_enc true ++ line_comp false) /\
+  wit 1 1 [] W_ENC_NONE_COMP = mkIres 1 [].
+Proof. exact info_expect_encrypt_reachable. Qed.
+
+Theorem C17_info_files_sum_overflow_reachable :
+  wit 1 1 W_TABLE W_SUM = mkIres 101 (line_version ++ line_enc false ++ line_comp true) /\
+  wit 1 0 W_TABLE W_SUM = mkIres 0 (line_version ++ line_enc false ++ line_comp true ++ line_rate 0 3) /\
+  wit 0 1 W_TABLE W_SUM = mkIres 0 (line_version ++ line_enc false ++ line_comp true).
+Proof. exact info_files_sum_overflow_reachable. Qed.
+
+(* Tie A: the reader is built only under `if compression`, no key-policy test in info, the sums, the f64 division,
+   the five println! with their guards and texts, three expect sites *)
+Theorem C17_tieA_info :
+  Src.INFO_sums_as_modelled = 1 /\ Src.INFO_reader_only_if_compression = 1 /\ Src.INFO_rate_is_f64_division = 1 /\
+  Src.INFO_EXPECTS = 3 /\
+  map (fun x => (fst (fst x), snd (fst x))) Src.INFO_PRINTS = [(0, T_VERSION); (0, T_ENC); (1, T_RECIP); (0, T_COMP); (2, T_RATE)] /\
+  nth 4 (map snd Src.INFO_PRINTS) [] = [123; 99; 111; 109; 112; 114; 101; 115; 115; 105; 111; 110; 95; 114; 97; 116; 101; 58; 46; 50; 125].
+Proof. exact info_facts_src. Qed.
+
+Print Assumptions C17_info_reports_layers.
+Print Assumptions C17_info_needs_key_iff.
+Print Assumptions C17_info_expect_encrypt_reachable.
+Print Assumptions C17_info_files_sum_overflow_reachable.
+Print Assumptions C17_tieA_info.
+
+(* non-vacuity: the instance of C17_nonvacuous_made_by_create (no layer) meets the extra premise, and info on the
+   archive create wrote prints the three lines; a COMPRESSED archive (toy compressor: marker byte + reversed block) of
+   the same files, by evaluation: the rate line is the one the theorem names (input sizes over compressed blocks) *)
+Example C17_nonvacuous_info_total : files_total x17_files < 2 ^ 64.
+Proof. vm_compute. reflexivity. Qed.
+Definition x17_info (verbose : bool) (dec : bytes -> bytes) (a : bytes) (privs : list bytes) :=
+  cmd_info 64 16 256 ex3_LIMIT x17_dh x17_id x17_k2 x17_tag x17_ksf x17_tagf dec true verbose a privs.
+Example C17_example_info :
+  x17_info true x17_id x17_a [] = mkIres 0 (info_text true false 0 false (files_total x17_files) 0) /\
+  x17_info true x17_id x17_a [] = mkIres 0 (line_version ++ line_enc false ++ line_comp false).
+Proof. split; vm_compute; reflexivity. Qed.
+Definition x17_comp : wconfig := mkWC true false CompLayer.toy_comp [] [] [] [].
+Definition x17_ca : bytes :=
+  match cr_out (cmd_create 64 24 256 ex3_LIMIT 65536 T1 T2 T3 T4 Sha256.sha256 x17_order x17_pub x17_dh x17_id x17_k2 x17_tag x17_ksf x17_tagf
+                  x17_comp [] [] x17_files) with OWritten a => a | _ => [] end.
+Example C17_example_info_compressed :
+  x17_ca <> [] /\
+  x17_info true CompLayer.toy_dec x17_ca [] =
+    mkIres 0 (info_text true false 0 true (files_total x17_files) (len (concat (cblocks_of 256 x17_comp (w_out (fst x17_run)))))) /\
+  (* a key for this archive without encryption is accepted *)
+  x17_info true CompLayer.toy_dec x17_ca [[1]] = x17_info true CompLayer.toy_dec x17_ca [].
+Proof. split; [vm_compute; discriminate|]. split; vm_compute; reflexivity. Qed.
